@@ -6,6 +6,7 @@ import (
 	"context"
 	"sync"
 
+	"github.com/go-logr/logr"
 	"k8s.io/client-go/util/workqueue"
 	"sigs.k8s.io/controller-runtime/pkg/client"
 	"sigs.k8s.io/controller-runtime/pkg/event"
@@ -14,6 +15,7 @@ import (
 	"github.com/jcmoraisjr/haproxy-ingress/pkg/controller/config"
 	"github.com/jcmoraisjr/haproxy-ingress/pkg/controller/services"
 	"github.com/jcmoraisjr/haproxy-ingress/pkg/converters/types"
+	hwq "github.com/jcmoraisjr/haproxy-ingress/pkg/utils/workqueue"
 )
 
 // Verification hook (build tag `verif` only): exports constructors and accessors so
@@ -100,4 +102,50 @@ func (h VerifHandler) Delete(ctx context.Context, obj client.Object, q *VerifQue
 // Generic calls hdlr.Generic.
 func (h VerifHandler) Generic(ctx context.Context, obj client.Object, q *VerifQueue) {
 	h.h.Generic(ctx, event.TypedGenericEvent[client.Object]{Object: obj}, q)
+}
+
+// VerifReconciler wraps an IngressReconciler (no manager) whose queue is created with the same two calls
+// SetupWithManager uses (RateLimiter: IngressReconcilerRateLimiter(cfg.RateLimitUpdate, cfg.WaitBeforeUpdate);
+// NewQueue: NewTypedRateLimitingQueueWithConfig), so that the real enqueue sites (hdlr.notify,
+// IngressReconciler.leaderChanged) can be driven against the real queue. rparam is unexported: items are
+// exchanged as their fullsync flag.
+type VerifReconciler struct{ r *IngressReconciler }
+
+// VerifNewReconciler builds the reconciler over the given watchers.
+func VerifNewReconciler(cfg *config.Config, v *VerifWatchers) *VerifReconciler {
+	r := &IngressReconciler{Config: cfg, log: logr.Discard(), watchers: v.w}
+	r.queue = workqueue.NewTypedRateLimitingQueueWithConfig(
+		hwq.IngressReconcilerRateLimiter[rparam](cfg.RateLimitUpdate, cfg.WaitBeforeUpdate),
+		workqueue.TypedRateLimitingQueueConfig[rparam]{Name: "ingress"})
+	return &VerifReconciler{r: r}
+}
+
+// LeaderChanged calls IngressReconciler.leaderChanged.
+func (v *VerifReconciler) LeaderChanged(ctx context.Context, isLeader bool) {
+	v.r.leaderChanged(ctx, isLeader)
+}
+
+// Get calls queue.Get.
+func (v *VerifReconciler) Get() (fullsync bool, shutdown bool) {
+	item, sd := v.r.queue.Get()
+	return item.fullsync, sd
+}
+
+// Forget calls queue.Forget.
+func (v *VerifReconciler) Forget(fullsync bool) { v.r.queue.Forget(rparam{fullsync: fullsync}) }
+
+// Done calls queue.Done.
+func (v *VerifReconciler) Done(fullsync bool) { v.r.queue.Done(rparam{fullsync: fullsync}) }
+
+// ShutDown calls queue.ShutDown.
+func (v *VerifReconciler) ShutDown() { v.r.queue.ShutDown() }
+
+// CreateOn calls hdlr.Create with the reconciler's real queue.
+func (h VerifHandler) CreateOn(ctx context.Context, obj client.Object, v *VerifReconciler) {
+	h.h.Create(ctx, event.TypedCreateEvent[client.Object]{Object: obj}, v.r.queue)
+}
+
+// GenericOn calls hdlr.Generic with the reconciler's real queue.
+func (h VerifHandler) GenericOn(ctx context.Context, obj client.Object, v *VerifReconciler) {
+	h.h.Generic(ctx, event.TypedGenericEvent[client.Object]{Object: obj}, v.r.queue)
 }
